@@ -532,6 +532,144 @@ def rule_size(rep, repo):
     rep.sample({"size_model": cname, "parameters": show(got)})
 
 
+def rule_act_size(rep, repo):
+  """R7 (activations / totals): _act_size, compute_model_size and
+  adjusted_score interpreted on stand-in layers with symbolic sizes."""
+  from ..pe import ShapeV
+  fb = repo.module(FBM)
+  c = fb.classes["ForgivingFactorBits"]
+  fw = Fwd()
+  N = NF.sym
+
+  def S(n):
+    return Tensor(("sym", n), ())
+  m = c.methods.get("_act_size")
+  if m is None:
+    raise AnalysisError("anchor-missing ForgivingFactorBits._act_size")
+  unit = "%s::ForgivingFactorBits._act_size" % fb.relpath
+  rep.unit(unit)
+  loc = fb.loc(m)
+  o = Obj(c)
+  o.attrs.update({"ref_bits": S("ref"), "input_bits": S("ib"),
+                  "output_bits": S("ob")})
+  fnm = lambda name: Mock(name, {"__name__": name})
+  qobj = Mock("quantized_relu object", {"bits": S("ab")})
+  nobits = Mock("callable without bits", {})
+
+  def layer(cname, activation):
+    return Mock(cname, {
+        "__class__": Mock("class", {"__name__": cname}),
+        "activation": activation,
+        "output": Mock("out", {"shape": ShapeV((None, S("o1"), S("o2")))})})
+  out = N("o1") * N("o2")
+  cases = [
+      ("InputLayer", layer("InputLayer", None), N("ib") * out),
+      ("Dense(relu)", layer("Dense", fnm("relu")), N("ref") * out),
+      ("Dense(linear)", layer("Dense", fnm("linear")), NF.const(0)),
+      ("Conv2D(no activation)", layer("Conv2D", None), NF.const(0)),
+      ("QDense(quantizer object)", layer("QDense", qobj), N("ab") * out),
+      ("QConv2D('softmax')", layer("QConv2D", "softmax"), N("ob") * out),
+      ("QDense('linear')", layer("QDense", "linear"), NF.const(0)),
+      ("QDense(linear function)", layer("QDense", fnm("linear")),
+       NF.const(0)),
+      ("QDense(no activation)", layer("QDense", None), NF.const(0)),
+      ("QDense(callable without bits)", layer("QDense", nobits),
+       N("ref") * out),
+      ("QActivation(quantizer object)", layer("QActivation", Mock(
+          "q", {"bits": S("ab"), "__name__": "quantized_relu"})),
+       N("ab") * out),
+      ("QActivation('quantized_relu(4)')",
+       layer("QActivation", "quantized_relu(4)"), 4 * out),
+      ("Activation('softmax')", layer("Activation", "softmax"),
+       N("ob") * out),
+      ("Activation('sigmoid')", layer("Activation", "sigmoid"),
+       N("ob") * out),
+      ("Activation('linear')", layer("Activation", "linear"), NF.const(0)),
+      ("MaxPooling2D", layer("MaxPooling2D", None), NF.const(0)),
+  ]
+  for label, lyr, want in cases:
+    pe = PE(repo)
+    pe.opaque_ext = True
+    try:
+      r = pe.call_func(Func(m, fb, [], "_act_size", o, c), [lyr], {})
+      got = fw(r.term) if isinstance(r, Tensor) else NF.const(F(r))
+    except PyRaise as e:
+      rep.fail("R7", unit, "act-size-raises:" + label,
+               "_act_size raises %s for %s" % (e, label), loc=loc)
+      continue
+    rep.check(got == want, "R7", unit, "act-size:" + label,
+              "activation size of %s is %s, expected output elements x bits "
+              "of the applied activation quantizer (reference / input / "
+              "output width as documented): %s" % (label, show(got),
+                                                    show(want)), loc=loc)
+  # compute_model_size: totals are the selected parts
+  cm = c.methods.get("compute_model_size")
+  unit2 = "%s::ForgivingFactorBits.compute_model_size" % fb.relpath
+  rep.unit(unit2)
+  if cm is None:
+    raise AnalysisError("anchor-missing compute_model_size")
+  o2 = Obj(c)
+  o2.attrs.update({"config": {"QDense": ["parameters", "activations"],
+                              "QActivation": ["activations"],
+                              "default": ["parameters"]}})
+  o2.attrs["_param_size"] = lambda pe, a, k: S("p_" + a[0].attrs["name"])
+  o2.attrs["_act_size"] = lambda pe, a, k: S("a_" + a[0].attrs["name"])
+  L = lambda cn, nm: Mock(nm, {"name": nm, "__class__": Mock(
+      "class", {"__name__": cn})})
+  model = Mock("model", {"layers": [L("QDense", "d"), L("QActivation", "q"),
+                                    L("Flatten", "f")]})
+  pe = PE(repo)
+  try:
+    r = pe.call_func(Func(cm, fb, [], "compute_model_size", o2, c), [model],
+                     {})
+    g = lambda v: fw(v.term) if isinstance(v, Tensor) else NF.const(F(v))
+    tot, ps, as_ = g(r[0]), g(r[1]), g(r[2])
+    wp = N("p_d") + N("p_f")
+    wa = N("a_d") + N("a_q")
+    rep.check(ps == wp and as_ == wa and tot == wp + wa, "R7", unit2,
+              "model-size-totals",
+              "compute_model_size returns total=%s parameters=%s "
+              "activations=%s; expected the parts selected by the "
+              "configuration: %s / %s" % (show(tot), show(ps), show(as_),
+                                          show(wp), show(wa)),
+              loc=fb.loc(cm))
+    d = r[3]
+    okd = isinstance(d, dict) and set(d) == {"d", "q", "f"} and \
+        g(d["d"]["total"]) == N("p_d") + N("a_d") and \
+        g(d["q"]["total"]) == N("a_q") and g(d["f"]["total"]) == N("p_f")
+    rep.check(okd, "R7", unit2, "per-layer-totals",
+              "per-layer totals are not parameters/activations selected by "
+              "the configuration: %s" % (sorted(d) if isinstance(d, dict)
+                                         else d), loc=fb.loc(cm))
+  except PyRaise as e:
+    rep.fail("R7", unit2, "model-size-raises", "raises %s" % e,
+             loc=fb.loc(cm))
+  # adjusted_score = metric * (1 + delta)
+  aq = repo.module(AQ)
+  hm = aq.classes["AutoQKHyperModel"]
+  am = hm.methods.get("adjusted_score")
+  unit3 = "%s::AutoQKHyperModel.adjusted_score" % aq.relpath
+  rep.unit(unit3)
+  if am is None:
+    raise AnalysisError("anchor-missing AutoQKHyperModel.adjusted_score")
+  pe = PE(repo)
+  pe.opaque_ext = True
+  try:
+    sc = pe.call_func(Func(am, aq, [], "adjusted_score", None, hm),
+                      [None, S("delta"),
+                       lambda pe, a, k: S("metric")], {})
+    yt = Mock("y_true", {"shape": ShapeV((None, 10))})
+    yp = Mock("y_pred", {"shape": ShapeV((None, 10))})
+    r = pe.call(sc, [yt, yp], {})
+    got = fw(r.term)
+    want = N("metric") * (1 + N("delta"))
+    rep.check(got == want, "R7", unit3, "score!=metric*(1+delta)",
+              "the trial score is %s, expected metric*(1+delta)" %
+              show(got), loc=aq.loc(am))
+  except PyRaise as e:
+    rep.fail("R7", unit3, "score-raises", "raises %s" % e, loc=aq.loc(am))
+
+
 def run(rep, repo, tier):
   rep.trusted.append("keras-tuner's hp.Choice / hp.Fixed return one of the "
                      "offered values; re.match semantics")
@@ -542,10 +680,11 @@ def run(rep, repo, tier):
   rule_quantize_model(rep, repo)
   rule_forgiving(rep, repo)
   rule_size(rep, repo)
+  rule_act_size(rep, repo)
   rep.require_instances("R1", 8)
   rep.require_instances("R2", 18)
   rep.require_instances("R3", 4)
   rep.require_instances("R4", 3)
   rep.require_instances("R5", 6)
   rep.require_instances("R6", 8)
-  rep.require_instances("R7", 3)
+  rep.require_instances("R7", 20)
